@@ -36,21 +36,34 @@ def check(ctx):
     else:
         params = [b for p in fn.sig["params"] if not p.get("self") for b in [expr_text({"k": "path", "segs": [x]}) for x in __import__("srclib").pat_bindings(p["pat"])]]
         paths = ev.fn_paths(fn, None, lambda n: None)
-        if len(paths) != 3:
-            r1.bad(V(r1.id, "NamingContext::compute_field_name", "paths:%d" % len(paths), "expected three alternatives (rename / rename_all / default), found %d" % len(paths)))
-        else:
-            (c1, v1), (c2, v2), (c3, v3) = paths
-            name_p, rename_p, all_p = params[0], params[1], params[2]
-            ok1 = len(c1) == 1 and re.fullmatch(r"if-let Some\(\w+\) = %s" % rename_p, c1[0]) and v1[0] in ("var", "maphit") or (len(c1) == 1 and rename_p in c1[0] and "not(" not in c1[0])
-            ok2 = len(c2) == 2 and c2[0].startswith("not(") and rename_p in c2[0] and all_p in c2[1] and "not(" not in c2[1] and v2[0] == "call" and v2[1] == "apply_naming_convention"
-            ok3 = len(c3) == 2 and all(x.startswith("not(") for x in c3) and v3[0] == "call" and v3[1] == "apply_naming_convention"
-            if ok1 and ok2 and ok3:
-                r1.ok("rename ▷ rename_all ▷ default: %s | %s | %s" % (render(v1), render(v2), render(v3)))
-                if v2[2] and v2[2][0] != ("var", name_p):
-                    r1.bad(V(r1.id, "NamingContext::compute_field_name", "rename_all-subject:%s" % render(v2), "rename_all is applied to %s, not to the field name" % render(v2[2][0])))
+        # decided as a table over (rename, rename_all) ∈ {Some, None}²: which alternative is taken and what it yields — the same for an
+        # if-let chain, early returns, or one `match` on the pair
+        from svlib import select_path
+        name_p, rename_p, all_p = params[0], params[1], params[2]
+        table = {}
+        for rn in ("Some", "None"):
+            for al in ("Some", "None"):
+                table[(rn, al)] = select_path(paths, {rename_p: rn, all_p: al})
+        problems = []
+        for (rn, al), sel in sorted(table.items()):
+            if sel is None:
+                problems.append("%s/%s:no-path" % (rn, al))
+                continue
+            conds, v, certain = sel
+            if rn == "Some":
+                if not (v[0] in ("var", "maphit")):
+                    problems.append("%s/%s:%s" % (rn, al, render(v)[:40]))
             else:
-                r1.bad(V(r1.id, "NamingContext::compute_field_name", "order:%s" % " / ".join(" & ".join(c) for c, _ in paths)[:160],
-                         "the alternatives are not ordered rename ▷ rename_all ▷ default: %s" % [(c, render(v)) for c, v in paths]))
+                if not (v[0] == "call" and v[1] == "apply_naming_convention"):
+                    problems.append("%s/%s:%s" % (rn, al, render(v)[:40]))
+                elif v[2] and v[2][0] != ("var", name_p):
+                    r1.bad(V(r1.id, "NamingContext::compute_field_name", "rename_all-subject:%s" % render(v), "rename_all is applied to %s, not to the field name" % render(v[2][0])))
+        same_default = table.get(("None", "None")) and table.get(("None", "Some")) and table[("None", "None")][1] == table[("None", "Some")][1]
+        if problems or same_default:
+            r1.bad(V(r1.id, "NamingContext::compute_field_name", "order:%s" % (",".join(problems) or "rename_all-ignored")[:160],
+                     "the alternatives are not ordered rename ▷ rename_all ▷ default: %s" % [(c, render(v)) for c, v in paths]))
+        else:
+            r1.ok("rename ▷ rename_all ▷ default: %s" % " | ".join(sorted(set(render(t[1]) for t in table.values() if t))))
     dfc = S.fn(None, "default_field_case")
     if dfc is not None:
         ps = ev.fn_paths(dfc)
